@@ -121,4 +121,26 @@ template void we_use_nk<we_nk<boost::msm::back::state_machine>>();
 // favor_compile_time: exact and base-class triggers (no Kleene)
 template <class FE> using we_fct = boost::msm::back::state_machine<FE, boost::msm::back::favor_compile_time>;
 template void we_use_nk<we_nk<we_fct>>();
+// a Kleene row in a machine that also has completion (trigger-less) rows: the Kleene row must not be taken for the library's own
+// completion event when its source state is entered
+template <template <typename...> class Back>
+struct we_kc
+{
+    struct Top_ : public msm::front::state_machine_def<Top_>
+    {
+        struct A : we_st {}; struct B : we_st {}; struct C : we_st {}; struct D : we_st {};
+        typedef A initial_state;
+        struct transition_table : mpl::vector<
+            msm::front::Row<A, we_go, B, msm::front::none, msm::front::none>,
+            msm::front::Row<B, boost::any, C, we_act, msm::front::none>,
+            msm::front::Row<D, msm::front::none, A, msm::front::none, msm::front::none>
+        > {};
+        template <class FSM, class Event> void no_transition(Event const&, FSM&, int) {}
+    };
+    typedef Back<Top_> Top;
+};
+template <class W> void we_use_kc() { typename W::Top m; m.start(); m.process_event(we_go()); m.process_event(we_exact()); m.stop(); }
+template void we_use_kc<we_kc<boost::msm::back::state_machine>>();
+template void we_use_kc<we_kc<boost::msm::back11::state_machine>>();
+template void we_use_kc<we_kc<boost::msm::backmp11::state_machine_adapter>>();
 }
